@@ -127,6 +127,10 @@ func (p *param) fromText(text []byte) error {
 	if err != nil {
 		return err
 	}
+	// the wire format carries the value length in 16 bits
+	if len(data) > 65535 {
+		return fmt.Errorf("value for %s is longer than 65535 bytes", k)
+	}
 
 	p.value = data
 	p.keynum = knum
